@@ -109,6 +109,65 @@ def fold(v, consts=None, subst=None):
     return None
 
 
+TYRANGE = {"u8": (0, 255), "u16": (0, 65535), "u32": (0, 2 ** 32 - 1), "u64": (0, 2 ** 64 - 1), "usize": (0, 2 ** 64 - 1),
+           "i8": (-128, 127), "i16": (-32768, 32767), "i32": (-2 ** 31, 2 ** 31 - 1), "i64": (-2 ** 63, 2 ** 63 - 1), "isize": (-2 ** 63, 2 ** 63 - 1)}
+NAMED = {"%s::MAX" % t: r[1] for t, r in TYRANGE.items()}
+NAMED.update({"%s::MIN" % t: r[0] for t, r in TYRANGE.items()})
+
+
+def vtype(v):
+    """Primitive integer type of a value when it is evident from the expression itself, else None."""
+    k = v[0]
+    if k == "cast":
+        return v[2] if v[2] in TYRANGE else None
+    if k == "const" and isinstance(v[1], str) and v[1] in NAMED:
+        return v[1].split("::")[0]
+    if k == "unop" and v[1] == "Neg":
+        return vtype(v[2])
+    if k == "binop":
+        return vtype(v[2]) or vtype(v[3])
+    if k == "call" and _last(v[1]) in ("min", "max") and v[1].startswith("core::cmp::") and len(v[2]) == 2:
+        return vtype(v[2][0]) or vtype(v[2][1])
+    return None
+
+
+def vrange(v, consts=None):
+    """(lo, hi) bounds of an integer expression by interval arithmetic, or None when nothing is known.
+    Unknown leaves are bounded by their evident type only."""
+    c = fold(v, consts)
+    if c is None and v[0] == "const" and v[1] in NAMED:
+        c = NAMED[v[1]]
+    if c is not None:
+        return (c, c)
+    k = v[0]
+    if k == "cast":
+        inner = vrange(v[1], consts)
+        tr = TYRANGE.get(v[2])
+        if inner and tr and tr[0] <= inner[0] and inner[1] <= tr[1]:
+            return inner
+        return tr
+    if k == "unop" and v[1] == "Neg":
+        r = vrange(v[2], consts)
+        return (-r[1], -r[0]) if r else None
+    if k == "call" and _last(v[1]) in ("min", "max") and v[1].startswith("core::cmp::") and len(v[2]) == 2:
+        ty = TYRANGE.get(vtype(v))
+        a = vrange(v[2][0], consts) or ty
+        b = vrange(v[2][1], consts) or ty
+        if not a or not b:
+            return None
+        f = min if _last(v[1]) == "min" else max
+        return (f(a[0], b[0]), f(a[1], b[1]))
+    if k == "binop":
+        op = v[1].replace("WithOverflow", "").replace("Unchecked", "")
+        a, b = vrange(v[2], consts), vrange(v[3], consts)
+        if a and b:
+            if op == "Add":
+                return (a[0] + b[0], a[1] + b[1])
+            if op == "Sub":
+                return (a[0] - b[1], a[1] - b[0])
+    return TYRANGE.get(vtype(v))
+
+
 def cmp_nf(v, label="true"):
     """(lhs, rel, rhs) that holds when the branch on boolean value v takes edge `label`."""
     truth = label in ("true", True, "1")
@@ -125,7 +184,21 @@ def cmp_nf(v, label="true"):
         return None
     if not truth:
         rel = NEG[rel]
+    if _constant(a) and not _constant(b):      # canonical form: a constant operand on the right (`0 < n` is `n > 0`)
+        a, b, rel = b, a, SWAP[rel]
     return (a, rel, b)
+
+
+def _constant(v):
+    if v[0] == "const":
+        return True
+    if v[0] == "cast":
+        return _constant(v[1])
+    if v[0] == "proj" and v[1][0] == "const":
+        return True
+    if v[0] == "binop":
+        return _constant(v[2]) and _constant(v[3])
+    return False
 
 
 def orient(nf, is_var):
